@@ -94,6 +94,11 @@ class AbstractModel(ModelObject):
         self.__dict__.update(state)
         self._frozen_cache = {}
 
+    @assert_not_frozen
+    def __delattr__(self, item):
+        # deleting a component changes the model just as assigning one does
+        super().__delattr__(item)
+
     def freeze(self):
         """
         Freeze this object.
